@@ -5,6 +5,8 @@ package cmd
 // C20 (c) — the built binary: exit codes of client commands and the `list` table, against a model.
 
 import (
+	"io"
+	"strconv"
 	"bytes"
 	"fmt"
 	"net"
@@ -31,6 +33,10 @@ type c20Cmd struct {
 	Pct     int      `json:"pct,omitempty"`
 	Extra   []string `json:"extra,omitempty"` // extra flags (validation cases)
 	TLS     bool     `json:"tls,omitempty"`   // deploy --tls (automatic; nothing is fetched until a handshake)
+	// SlowFlight (deploy of a running, non-TLS service): a request that takes 3 s is in flight on the old target when
+	// the command is issued with --deploy-timeout 400ms --drain-timeout 10s: the proxy answers once the request has
+	// ended, and the command reports that success however long the drain took
+	SlowFlight bool `json:"slow_flight,omitempty"`
 }
 
 type c20BinPlan struct {
@@ -141,6 +147,28 @@ var c20Names = []string{"web", "api", "admin", "café-crème-brûlée-backend"}
 func c20BinGen(t *rapid.T) c20BinPlan {
 	p := c20BinPlan{}
 	m := map[string]*c20MSvc{}
+	prologue := rapid.IntRange(0, 5).Draw(t, "prologue")
+	if prologue == 2 {
+		// a redeploy while a slow request is in flight on the target being replaced
+		for _, c := range []c20Cmd{{Op: "deploy", Svc: "admin", Hosts: []string{"b.example.com"}, Targets: []int{0}},
+			{Op: "deploy", Svc: "admin", Hosts: []string{"b.example.com"}, Targets: []int{1}, SlowFlight: true}, {Op: "list"}} {
+			c20Apply(m, c)
+			p.Cmds = append(p.Cmds, c)
+		}
+	}
+	if prologue <= 1 {
+		// a host whose root service has TLS on and a second service below a path of it, in either order, then list
+		root := c20Cmd{Op: "deploy", Svc: "web", Hosts: []string{"a.example.com"}, Targets: []int{0}, TLS: true}
+		sub := c20Cmd{Op: "deploy", Svc: "api", Hosts: []string{"a.example.com"}, Prefix: []string{rapid.SampledFrom([]string{"/api", "app/"}).Draw(t, "sub-prefix")}, Targets: []int{1}}
+		pro := []c20Cmd{root, sub}
+		if rapid.Bool().Draw(t, "sub-first") {
+			pro = []c20Cmd{sub, root}
+		}
+		for _, c := range append(pro, c20Cmd{Op: "list"}) {
+			c20Apply(m, c)
+			p.Cmds = append(p.Cmds, c)
+		}
+	}
 	n := rapid.IntRange(3, 10).Draw(t, "ncmds")
 	for i := 0; i < n; i++ {
 		c := c20Cmd{Svc: rapid.SampledFrom(c20Names).Draw(t, "svc")}
@@ -170,9 +198,24 @@ func c20BinGen(t *rapid.T) c20BinPlan {
 			for _, h := range c.Hosts {
 				noWildcard = noWildcard && !strings.Contains(h, "*")
 			}
-			if len(c.Hosts) > 0 && rootPath && noWildcard && rapid.IntRange(0, 2).Draw(t, "tls") == 0 {
+			if len(c.Hosts) > 0 && rootPath && noWildcard && rapid.IntRange(0, 1).Draw(t, "tls") == 0 {
 				c.TLS = true
 			}
+			// a companion below a path of a host whose root service has TLS on: its TLS column follows that service
+			if rapid.IntRange(0, 2).Draw(t, "companion") == 0 {
+				var roots []string
+				for _, n := range c20SortedNames(m) {
+					if o := m[n]; o.tls && n != c.Svc && len(o.hosts) > 0 {
+						roots = append(roots, o.hosts[0])
+					}
+				}
+				if len(roots) > 0 {
+					c.Hosts = []string{rapid.SampledFrom(roots).Draw(t, "companion-host")}
+					c.Prefix = []string{rapid.SampledFrom([]string{"/api", "app/"}).Draw(t, "companion-prefix")}
+					c.TLS = false
+				}
+			}
+			c.SlowFlight = rapid.IntRange(0, 3).Draw(t, "slow-flight") == 0
 			if rapid.IntRange(0, 7).Draw(t, "invalid") == 0 {
 				c.Extra = rapid.SampledFrom([][]string{{"--max-request-body", "10"}, {"--max-response-body", "10"}, {"--tls", "--path-prefix", "/only"}}).Draw(t, "extra")
 				if c.Extra[0] == "--tls" {
@@ -218,7 +261,15 @@ func c20BinRun(t *testing.T, p c20BinPlan) (res vfResult) {
 	var targets []*httptest.Server
 	for i := 0; i < 3; i++ {
 		idx := i
-		s := httptest.NewServer(http.HandlerFunc(func(w http.ResponseWriter, r *http.Request) { fmt.Fprintf(w, "target%d", idx) }))
+		s := httptest.NewServer(http.HandlerFunc(func(w http.ResponseWriter, r *http.Request) {
+			if ms, _ := strconv.Atoi(r.URL.Query().Get("ms")); ms > 0 {
+				select {
+				case <-time.After(time.Duration(ms) * time.Millisecond):
+				case <-r.Context().Done():
+				}
+			}
+			fmt.Fprintf(w, "target%d", idx)
+		}))
 		defer s.Close()
 		targets = append(targets, s)
 	}
@@ -302,6 +353,7 @@ func c20BinRun(t *testing.T, p c20BinPlan) (res vfResult) {
 	errors := 0
 	for i, c := range p.Cmds {
 		var args []string
+		var flight chan string
 		switch c.Op {
 		case "deploy":
 			args = []string{"deploy", c.Svc, "--deploy-timeout", "400ms", "--drain-timeout", "200ms", "--health-check-interval", "50ms"}
@@ -318,6 +370,35 @@ func c20BinRun(t *testing.T, p c20BinPlan) (res vfResult) {
 				args = append(args, "--tls")
 			}
 			args = append(args, c.Extra...)
+			if old := m[c.Svc]; c.SlowFlight && old != nil && old.state == "running" && !c20EffTLS(m, old) && len(c.Extra) == 0 && len(old.targets) > 0 && old.targets[0] >= 0 {
+				probe := map[string]*c20MSvc{}
+				for k, v := range m {
+					cp := *v
+					probe[k] = &cp
+				}
+				if !c20Apply(probe, c) { // the deploy is one the model expects to succeed
+					host := "anything.test"
+					if len(old.hosts) > 0 {
+						host = strings.Replace(old.hosts[0], "*", "x", 1)
+					}
+					req, _ := http.NewRequest("GET", fmt.Sprintf("http://127.0.0.1:%d%s/slow?ms=3000", httpPort, strings.TrimSuffix(c20NormPrefixes(old.prefixes)[0], "/")), nil)
+					req.Host = host
+					flight = make(chan string, 1)
+					go func() {
+						resp, err := (&http.Client{Timeout: 20 * time.Second}).Do(req)
+						if err != nil {
+							flight <- "error: " + err.Error()
+							return
+						}
+						b, _ := io.ReadAll(resp.Body)
+						resp.Body.Close()
+						flight <- fmt.Sprintf("%d %s", resp.StatusCode, b)
+					}()
+					time.Sleep(300 * time.Millisecond)
+					args[3], args[5] = "400ms", "10s"
+					res.label("deploy-with-a-slow-request-in-flight")
+				}
+			}
 		case "remove", "pause", "stop", "resume":
 			args = []string{c.Op, c.Svc}
 			if c.Op == "pause" || c.Op == "stop" {
@@ -362,6 +443,14 @@ func c20BinRun(t *testing.T, p c20BinPlan) (res vfResult) {
 			}
 		}
 		desc := fmt.Sprintf("step %d: kamal-proxy %s", i, strings.Join(args, " "))
+		if flight != nil {
+			got := <-flight
+			if !strings.HasPrefix(got, "200 target") {
+				res.failf("flight-cut", "%s: the request in flight when the command was issued (3 s, drain timeout 10 s) ended with %q", desc, got)
+				return
+			}
+			desc += " (a 3 s request was in flight on the old target)"
+		}
 		if wantFail != (code != 0) {
 			res.failf("exit-code:"+c.Op, "%s: exit status %d, model says the command %s; stderr=%q", desc, code, map[bool]string{true: "fails", false: "succeeds"}[wantFail], se.String())
 			return
@@ -395,6 +484,9 @@ func c20BinRun(t *testing.T, p c20BinPlan) (res vfResult) {
 				tlsCol := "no"
 				if c20EffTLS(m, s) {
 					tlsCol = "yes"
+					if !s.tls {
+						res.label("listed:sub-path-service-under-a-tls-root")
+					}
 				}
 				want[n] = []string{host, strings.Join(c20NormPrefixes(s.prefixes), ","), strings.Join(ts, ","), s.state, tlsCol}
 			}
@@ -482,4 +574,13 @@ func c20Sorted(m map[string][]string) []string {
 
 func TestVF_C20_Binary(t *testing.T) {
 	vfCheck(t, vfProp[c20BinPlan]{id: "C20", gen: c20BinGen, run: c20BinRun})
+}
+
+func c20SortedNames(m map[string]*c20MSvc) []string {
+	var out []string
+	for n := range m {
+		out = append(out, n)
+	}
+	sort.Strings(out)
+	return out
 }
